@@ -228,14 +228,7 @@ def run(chk):
                 if sp == ('err', 3) and got in (('err', 1), ('err', 2)):
                     sp = got        # INF idiv 0, NaN idiv 0: both error conditions hold
                 if has_spec and got != sp:
-                    if (op == 6 and got == mo and got[0] == 'val' and sp[0] == 'val' and got[2:] == sp[2:]
-                            and got[1] == 3 and sp[1] == 2):
-                        chk.known('C06-div-zero-result-type', desc | {'impl': got, 'spec': sp})
-                    elif (op == 4 and got == mo and got[0] == 'val' and sp[0] == 'val' and got[2] == sp[2] == 1
-                            and got[1] == 3 and sp[1] == 2 and tb[1] in (0, 4) and tb[2] == 0):
-                        chk.known('C06-mod-nan-result-type', desc | {'impl': got, 'spec': sp})
-                    else:
-                        chk.violation('impl-vs-spec', desc, {'impl': got, 'spec': sp, 'model': mo})
+                    chk.violation('impl-vs-spec', desc, {'impl': got, 'spec': sp, 'model': mo})
                 if finite or op == 6:
                     chk.nontrivial.add(repr(c))
         else:
@@ -253,7 +246,7 @@ def run(chk):
                 chk.violation('result-type', desc, {'impl_type': type(v).__name__})
                 continue
             if i in model:
-                (mm, md), (sm, sd) = model[i]
+                (mm, md, mnz), (sm, sd, snz) = model[i]
                 scale = Fraction(10) ** (-p if f in (4, 5) else 0)
                 want_m = Fraction(mm, md) * scale
                 want_s = Fraction(sm, sd) * scale
@@ -265,10 +258,12 @@ def run(chk):
                     chk.corr_fail.append((desc, repr(v), str(want_m)))
                 if gotv != want_s:
                     chk.violation('impl-vs-spec', desc, {'impl': repr(v), 'spec': str(want_s)})
-                elif isinstance(v, float) and v == 0 and a < 0 and f in (1, 2) and math.copysign(1, v) > 0:
-                    chk.known('C06-floor-ceiling-negative-zero', desc | {'impl': repr(v), 'spec': '-0.0'})
-                elif isinstance(v, float) and v == 0 and a < 0 and f in (0, 4, 5) and math.copysign(1, v) > 0:
-                    chk.violation('impl-vs-spec', desc, {'impl': repr(v), 'spec': '-0.0'})
+                elif isinstance(v, float) and v == 0:
+                    neg = int(math.copysign(1, v) < 0)
+                    if neg != mnz:
+                        chk.corr_fail.append((desc, repr(v), 'negative zero' if mnz else 'positive zero'))
+                    if neg != snz:
+                        chk.violation('impl-vs-spec', desc, {'impl': repr(v), 'spec': '-0.0' if snz else '0.0'})
                 chk.nontrivial.add(repr(c))
         if i % 1499 == 0:
             chk.sample({'case': repr(c), 'model': model.get(i)})
@@ -279,10 +274,7 @@ def run(chk):
             chk.evaluations += 1
             neg = r[0] == 'val' and r[1] == 0 and math.copysign(1, r[1]) < 0
             if want_neg and not neg:
-                if f in (1, 2):
-                    chk.known('C06-floor-ceiling-negative-zero', {'expr': UN[f], 'a': repr(a), 'impl': repr(r[1])})
-                else:
-                    chk.violation('impl-vs-spec', {'expr': UN[f], 'a': repr(a)}, {'impl': repr(r), 'spec': '-0.0'})
+                chk.violation('impl-vs-spec', {'expr': UN[f], 'a': repr(a)}, {'impl': repr(r), 'spec': '-0.0'})
     chk.rule = ('grid of boundary values of the four numeric types (type pairs x idiv/mod/div-by-zero/+,-,* on exact types) '
                 'plus seeded random operands, and rounding functions on half-way values x precisions; non-trivial = '
                 'finite operands with a non-zero divisor (or a zero divisor for div), distinct by (op, operands)')
